@@ -100,3 +100,10 @@ pub uninterp spec fn spec_char_count<'a>(c: std::str::Chars<'a>) -> usize;
 pub assume_specification<'a> [<std::str::Chars<'a> as std::iter::Iterator>::count] (c: std::str::Chars<'a>) -> (r: usize)
     ensures r == spec_char_count(c);
 
+// str::trim / trim_start / trim_end: some substring of the argument - NOTHING is assumed about which (in
+// particular not that it equals the argument), so a body that looks a key up after trimming it cannot be
+// proved to look up the key itself
+pub assume_specification [str::trim] (s: &str) -> (r: &str);
+pub assume_specification [str::trim_start] (s: &str) -> (r: &str);
+pub assume_specification [str::trim_end] (s: &str) -> (r: &str);
+
